@@ -90,8 +90,17 @@ func runC17(c *Ctx, idx int) {
 	// likewise base path and fragment; in the quick tier also the wrapper (the thorough grid enumerates it)
 	sp.Base = int(mix64(uint64(idx)*3+1) % 2)
 	sp.Frag = mix64(uint64(idx)*3+2)%4 == 0
+	sp.HostCase = mix64(uint64(idx)*3+4)%3 == 0
 	if c.Quick() {
 		sp.Wrap = []int{0, 0, 4, 5}[mix64(uint64(idx)*3+3)%4]
+	}
+	if sp.Fam == "dir-html" && sp.PrevNext {
+		// links into another directory are a negative signal for the prev/next scorer by themselves;
+		// a second one (a URL word it dislikes) is not combined with it, as for the sidebar below
+		sp.Base = 0
+		if sp.Wrap == 5 {
+			sp.Wrap = 4
+		}
 	}
 	if sp.Wrap == 5 {
 		// a pager inside a container that calls itself a sidebar, on a URL the scorer
